@@ -695,10 +695,10 @@ luaL_setfuncs({LUA_state_var}, {LUA_class_reg}, 0);
         # add guard
         guard = fname.replace(".", "_").upper()
         output.extend(["#ifndef %s" % guard, "#define %s" % guard])
-        util.extern_C(output, "begin")
-
+        # The library header is C++: include it before the extern "C" block.
         header_impl.write_headers(output)
 
+        util.extern_C(output, "begin")
         output.append('#include "lua.h"')
         output.extend(self.lua_type_structs)
         append_format(
@@ -738,7 +738,8 @@ luaL_setfuncs({LUA_state_var}, {LUA_class_reg}, 0);
         hinclude, hsource = self.helpers.find_file_helper_code()
 
         header_impl = util.Header(self.newlibrary)
-        header_impl.add_cxx_header(node)
+        # The library header is included by LUA_header_filename;
+        # it may have no include guard.
         header_impl.add_shroud_file(fmt.LUA_header_filename)
         header_impl.add_shroud_dict(hinclude)
         
